@@ -132,6 +132,9 @@ var mysqlTypeAliases = map[string][]string{
 	"decimal(10,2)": {"DECIMAL(10,2)", "NUMERIC(10,2)", "decimal(10, 2)"},
 	"decimal(12,4)": {"DECIMAL(12,4)"},
 	"decimal(5,3)":  {"DECIMAL(5,3)", "decimal(5, 3)"},
+	// scale 0 written out: the precision must survive (seeded change C15-m)
+	"decimal(12,0)": {"DECIMAL(12,0)", "NUMERIC(12,0)"},
+	"decimal(20,0)": {"DECIMAL(20,0)", "decimal(20, 0)"},
 	"double":        {"DOUBLE"},
 	"float":         {"FLOAT"},
 	"json":          {"JSON"},
